@@ -596,12 +596,15 @@ func c01Stack(t *testing.T, prop string) {
 	}
 	defer func() { <-frozenDone }()
 
-	nSessions := r.N(40, 300)
+	nSessions := r.N(40, 240)
 	idBase := make([]byte, 8)
 	rng.Read(idBase)
 	var all []*c01Result
 	var wg sync.WaitGroup
-	sem := make(chan struct{}, 12)
+	// sessions at a time: all of them share the server's one receive queue of 1024 packets; with too many bulk
+	// transfers at once on a loaded machine the queue overflows, KCP backs off to its 60 s timeout and a session can
+	// stand still for minutes without anything being wrong (seen once with six thorough runs in parallel)
+	sem := make(chan struct{}, r.N(12, 8))
 	for s := 0; s < nSessions; s++ {
 		res := &c01Result{session: uint32(1000 + s)}
 		switch x := rng.Intn(8); {
